@@ -321,6 +321,10 @@ def check_forwarding(ctx):
     sc = util.calls_in(f, suffix='add_species')
     ok = ok and len(pc) == 1 and {kw.arg: k(src(kw.value)) for kw in pc[0].keywords}.get('param_value') == 'val' and 'val=self.get_param_value(p)' in txt
     ok = ok and len(sc) == 1 and {kw.arg: k(src(kw.value)) for kw in sc[0].keywords}.get('initial_concentration') == 'self.get_species_value(s)'
+    # the export mode is the caller's: the flag is not recomputed from the model on the way to add_reaction
+    for n_ in ast.walk(f):
+        if isinstance(n_, (ast.Assign, ast.AugAssign)) and any(src(t_) == 'stochastic_model' for t_ in (n_.targets if isinstance(n_, ast.Assign) else [n_.target])):
+            miss.append('the export mode is overridden: `%s`' % util.stmt_key(n_)[:70])
     ctx.ob('R12.3-forwarding', 'generate_sbml_model', not miss and ok, ctx.loc('types', f),
            'all parameters (with values), species (with initial values), reaction definitions (8 fields + stochastic flag) and rule definitions (with frequency) are written',
            str(miss) if miss else '')
@@ -470,6 +474,7 @@ def check(ctx):
             ctx.ob('R12.6-reader-values', key, ok, where, what, detail)
     c13.check_parameter_values(ctx, 'R12.6-reader-values')
     c14.check_parameter_ids(ctx, 'R12.3-forwarding')
+    c13.check_unannotated_general(ctx, 'R12.6-reader-values')
     ctx.floor('R12.6-reader-values', 2)
     ctx.floor('R12.1-propensity-keys', 6)
     ctx.floor('R12.1-delay-keys', 8)
